@@ -79,3 +79,311 @@ def _move(final):
 move_cursor_right = contract(ES + "move_cursor_right", property="C04")(_move("C"))
 move_cursor_up = contract(ES + "move_cursor_up", property="C04")(_move("A"))
 move_cursor_down = contract(ES + "move_cursor_down", property="C04")(_move("B"))
+
+
+# =================================================================================================================
+# Screen._attrspec_to_escape (C17: "resolves ... to an SGR sequence that, decoded by a terminal, gives the same
+# foreground, background and style flags as the palette specifies"; C04: the attribute half of "shows in every cell
+# the text and display attributes").
+#
+# The result is an f-string over the AttrSpec's number fields and `"1;" * a.bold`-style optional pieces.  It is kept
+# as an `SFmt` (pieces: literals, symbolic ints rendered in decimal, and `Opt` pieces = a literal present iff a
+# Bool holds), cut into SGR parameters at the semicolons, and DECODED by `sgr_decode` below — a symbolic re-statement
+# of spec/sgr.py:sgr_apply (ECMA-48 8.3.117 / xterm ctlseqs "Character Attributes"), cross-checked against that
+# reference on concrete sequences by the static check `symbolic-decoder-agrees-with-spec-sgr`.  The decoder starts
+# from an ARBITRARY rendition (fresh symbols), so the clauses also say that what was selected before does not matter
+# (the leading 0 resets).
+
+from contracts.C18_colours import GETTERS, SPEC, attrspec_rgb, bg_number, fg_number, flag, wf, word  # noqa: E402
+from spec import sgr as REF  # noqa: E402
+
+DC = "urwid/display/common.py:"
+
+
+class OptPiece:
+    """`"1;" * flag`: the literal `text` when `cond` holds, nothing otherwise (a piece of an SFmt)."""
+
+    def __init__(self, cond, text):
+        self.cond, self.text = cond, text
+
+    def __repr__(self):
+        return f"Opt({self.text!r} if {self.cond!r})"
+
+
+def sgr_binop(ip, st, op, a, b):
+    import ast as _ast
+
+    if isinstance(op, _ast.Mult) and isinstance(a, str) and isinstance(b, V.SBool):
+        return SFmt((OptPiece(b, a),))
+    return NotImplemented
+
+
+def sgr_fstring(ip, st, pieces):
+    """f-strings whose fields are ints (`{n:d}`) or already-built strs (`{fg}`): concatenation of the pieces."""
+    out = []
+    for p in pieces:
+        if isinstance(p, str):
+            out.append(p)
+            continue
+        x, spec, conv = p
+        x = st.force(x)
+        if conv != -1:
+            return NotImplemented
+        if isinstance(x, SFmt) and spec == "":
+            out.extend(x.parts)
+        elif isinstance(x, str) and spec == "":
+            out.append(x)
+        elif isinstance(x, SInt) and spec in ("", "d"):
+            out.append(x)
+        elif isinstance(x, int) and not isinstance(x, bool) and spec in ("", "d"):
+            out.append(format(x, "d"))
+        else:
+            return NotImplemented
+    return SFmt(out) if any(not isinstance(p, str) for p in out) else "".join(out)
+
+
+def sgr_call_real(ip, st, f, args, kwargs):
+    """`str(n)` of a symbolic int is its decimal numeral (as `{n:d}`); `";".join(parts)` of such pieces."""
+    if f is str and len(args) == 1 and not kwargs:
+        x = st.force(args[0])
+        if isinstance(x, SInt):
+            return SFmt((x,))
+        if x is None or (isinstance(x, int) and not isinstance(x, bool)):
+            return str(x)
+    owner = getattr(f, "__self__", None)
+    if getattr(f, "__name__", "") == "join" and isinstance(owner, str) and len(args) == 1 and not kwargs:
+        items = args[0].seq if isinstance(args[0], Q.LRef) else args[0]
+        if isinstance(items, tuple) and all(isinstance(x, (str, SFmt)) for x in items):
+            out = []
+            for k, x in enumerate(items):
+                if k:
+                    out.append(owner)
+                out.extend(x.parts if isinstance(x, SFmt) else (x,))
+            return SFmt(out) if any(not isinstance(p, str) for p in out) else "".join(out)
+    return NotImplemented
+
+
+def sgr_params(result):
+    """ESC [ p ; p ; ... m  ->  the list of its parameters: int (literal numeral), SInt (rendered int), or
+    ("opt", cond, int) for an optional `N;` piece.  None when the text does not have that form."""
+    parts = list(fmt_parts(result) or ())
+    if not parts or not isinstance(parts[0], str) or not parts[0].startswith(ESC + "[") or not isinstance(parts[-1], str) or not parts[-1].endswith("m"):
+        return None
+    parts[0] = parts[0][2:]
+    parts[-1] = parts[-1][:-1]
+    params, tok = [], None  # tok: None (at a parameter boundary) | str of digits | SInt
+    for p in parts:
+        if isinstance(p, str):
+            for ch in p:
+                if ch == ";":
+                    if tok is None:
+                        return None  # an empty parameter is never produced
+                    params.append(int(tok) if isinstance(tok, str) else tok)
+                    tok = None
+                elif ch.isdigit() and ch.isascii() and (tok is None or isinstance(tok, str)):
+                    tok = (tok or "") + ch
+                else:
+                    return None
+        elif isinstance(p, OptPiece):
+            if tok is not None or not (p.text.endswith(";") and p.text[:-1].isdigit() and p.text.isascii()):
+                return None
+            params.append(("opt", p.cond, int(p.text[:-1])))
+        elif isinstance(p, (SInt, int)):
+            if tok is not None:
+                return None
+            tok = p
+        else:
+            return None
+    if tok is None:
+        return None
+    params.append(int(tok) if isinstance(tok, str) else tok)
+    return params
+
+
+KIND_DEFAULT, KIND_INDEX, KIND_RGB = 0, 1, 2
+FLAG_NAMES = REF.FLAGS
+_SET_CODES = {f: tuple(k for k, v in REF._SET.items() if v == f) for f in FLAG_NAMES}
+_CLEAR_CODES = {f: tuple(k for k, v in REF._CLEAR.items() if f in v) for f in FLAG_NAMES}
+_PLAIN = tuple(REF._SET) + tuple(REF._CLEAR) + (0, 39, 49) + tuple(range(30, 38)) + tuple(range(40, 48)) + tuple(range(90, 98)) + tuple(range(100, 108))
+
+
+def _is_in(p, codes):
+    return either(False, *[p == c for c in codes])
+
+
+def _between(p, lo, hi):
+    return both(lo <= p, p <= hi)
+
+
+def _apply_plain(state, p):
+    """One parameter that is not 38 / 48 (xterm's table, as spec/sgr.py:sgr_apply): (new state, in the repertoire)."""
+    fg, bg, flags = state
+    reset = p == 0
+    nfg = ite(_between(p, 30, 37), (KIND_INDEX, p - 30, 0, 0, 0), ite(_between(p, 90, 97), (KIND_INDEX, p - 90 + 8, 0, 0, 0),
+              ite(either(p == 39, reset), (KIND_DEFAULT, 0, 0, 0, 0), fg)))
+    nbg = ite(_between(p, 40, 47), (KIND_INDEX, p - 40, 0, 0, 0), ite(_between(p, 100, 107), (KIND_INDEX, p - 100 + 8, 0, 0, 0),
+              ite(either(p == 49, reset), (KIND_DEFAULT, 0, 0, 0, 0), bg)))
+    nflags = {f: ite(_is_in(p, _SET_CODES[f]), True, ite(either(reset, _is_in(p, _CLEAR_CODES[f])), False, flags[f])) for f in FLAG_NAMES}
+    known = either(_is_in(p, tuple(REF._SET) + tuple(REF._CLEAR) + (0, 39, 49)), _between(p, 30, 37), _between(p, 40, 47), _between(p, 90, 97), _between(p, 100, 107))
+    return (nfg, nbg, nflags), known
+
+
+def _select(c, new, old):
+    (f1, b1, fl1), (f0, b0, fl0) = new, old
+    return (ite(c, f1, f0), ite(c, b1, b0), {f: ite(c, fl1[f], fl0[f]) for f in FLAG_NAMES})
+
+
+def sgr_decode(params, state):
+    """Fold the parameters of ONE SGR sequence into the rendition `state` = (fg, bg, flags); fg / bg are
+    (kind, index, r, g, b), flags a dict name -> Bool.  Returns (state, ok): `ok` says every parameter is in the
+    repertoire and well placed (the reference raises SgrError otherwise).  Dual use (concrete ints natively)."""
+    ok = True
+    i, n = 0, len(params)
+    while i < n:
+        p = params[i]
+        if isinstance(p, tuple):
+            _t, cond, code = p
+            if code in (38, 48):
+                return state, False
+            new, known = _apply_plain(state, code)
+            ok = both(ok, known)
+            state = _select(cond, new, state)
+            i += 1
+            continue
+        if isinstance(p, int) and p in (38, 48):
+            # extended colour: 38;5;n / 38;2;r;g;b — the selector must be a literal, the operands may be symbolic
+            if i + 1 >= n or not isinstance(params[i + 1], int) or isinstance(params[i + 1], bool):
+                return state, False
+            sel = params[i + 1]
+            if sel == 5 and i + 2 < n and not isinstance(params[i + 2], tuple):
+                v = params[i + 2]
+                col, step = (KIND_INDEX, v, 0, 0, 0), 3
+                ok = both(ok, 0 <= v, v <= 255)
+            elif sel == 2 and i + 4 < n and not any(isinstance(x, tuple) for x in params[i + 2:i + 5]):
+                r, g, b = params[i + 2:i + 5]
+                col, step = (KIND_RGB, 0, r, g, b), 5
+                ok = both(ok, *[both(0 <= x, x <= 255) for x in (r, g, b)])
+            else:
+                return state, False
+            fg, bg, flags = state
+            state = (col, bg, flags) if p == 38 else (fg, col, flags)
+            i += step
+            continue
+        # a plain parameter, literal or symbolic; a symbolic one must not turn out to be 38 / 48 (it would swallow
+        # the parameters after it)
+        ok = both(ok, p != 38, p != 48)
+        state, known = _apply_plain(state, p)
+        ok = both(ok, known)
+        i += 1
+    return state, ok
+
+
+def _ref_state(s):
+    """spec/sgr.py SgrState -> the tuple form used here."""
+    def col(c):
+        return (KIND_DEFAULT, 0, 0, 0, 0) if c == REF.DEFAULT else (KIND_INDEX, c[1], 0, 0, 0) if c[0] == "index" else (KIND_RGB, 0, *c[1:])
+    return (col(s.fg), col(s.bg), {f: f in s.flags for f in FLAG_NAMES})
+
+
+def _xcheck_decoder():
+    """The decoder above against the reference spec/sgr.py:sgr_apply on concrete parameter strings: every single
+    parameter 0..110, the extended forms, random sequences, from random starting renditions; malformed ones must be
+    rejected by both."""
+    import random
+
+    rnd = random.Random(417)
+    cases = [str(k) for k in range(0, 111)] + ["38;5;7", "48;5;255", "38;2;1;2;3", "48;2;255;0;9", "38;5;256", "38;2;1;2", "38", "48;3;1", "38;5", "0;38;5;229;4;48;5;164",
+                                                "0;1;31;5;102", "0;39;49", "0;90;1;3;4;5;7;9;100"]
+    pool = [0, 1, 2, 3, 4, 5, 6, 7, 8, 9, 21, 22, 23, 24, 25, 27, 28, 29, 30, 37, 38, 39, 40, 47, 48, 49, 90, 97, 100, 107, 5, 2, 255, 256, 10, 50]
+    for _ in range(1500):
+        cases.append(";".join(str(rnd.choice(pool)) for _ in range(rnd.randint(1, 7))))
+    bad = []
+    for c in cases:
+        start = REF.SgrState(rnd.choice([REF.DEFAULT, ("index", 3), ("rgb", 1, 2, 3)]), rnd.choice([REF.DEFAULT, ("index", 200)]), rnd.sample(FLAG_NAMES, rnd.randint(0, 3)))
+        try:
+            want = _ref_state(REF.sgr_apply(start, c))
+        except REF.SgrError:
+            want = None
+        got, ok = sgr_decode([int(t) for t in c.split(";")], _ref_state(start))
+        if (want is None) != (not ok) or (want is not None and got != want):
+            bad.append((c, start, got, ok, want))
+    # optional pieces: present / absent must equal the reference on the text with / without them
+    for present in (False, True):
+        got, ok = sgr_decode([0, 39, ("opt", present, 1), ("opt", not present, 4), 49], _ref_state(REF.SgrState()))
+        want = _ref_state(REF.sgr_apply(REF.SgrState(), "0;39;" + ("1;" if present else "4;") + "49"))
+        if not ok or got != want:
+            bad.append(("opt", present, got, want))
+    return "symbolic-decoder-agrees-with-spec-sgr", not bad, f"{len(cases)} parameter strings; mismatches: {bad[:3]}"
+
+
+def _fresh_rendition(st):
+    def col(h):
+        return tuple(st.fresh_int(f"{h}{k}") for k in ("kind", "idx", "r", "g", "b"))
+    return (col("fg0_"), col("bg0_"), {f: st.fresh_bool(f"was_{f}") for f in FLAG_NAMES})
+
+
+def colour_as_specified(col, basic, high, true, number, brightened):
+    """The decoded colour `col` is the one the AttrSpec side (kind flags, number) specifies; a basic bright colour
+    (8..15) on a terminal that needs bold / blink for brightness (`brightened`) is selected as its dim partner."""
+    kind, idx, r, g, b = col
+    return both(
+        implies(true, both(kind == KIND_RGB, r * 65536 + g * 256 + b == number)),
+        implies(high, both(kind == KIND_INDEX, idx == number)),
+        implies(basic, both(kind == KIND_INDEX, idx == ite(both(brightened, number > 7), number - 8, number))),
+        implies(neg(either(basic, high, true)), kind == KIND_DEFAULT))
+
+
+import urwid.display._raw_display_base as _rdb  # noqa: E402
+
+# `term` is compared with "fbterm" only: two representatives.
+A2E_SCREEN = Obj(_rdb.Screen, dict(term=Atom("fbterm", "xterm"), fg_bright_is_bold=Bool, bg_bright_is_blink=Bool))
+import copy as _copy  # noqa: E402
+
+_rgb_callee = _copy.copy(attrspec_rgb)  # the C18 contract, with the shape of its result for use at this call site
+_rgb_callee.result = Tup(*[Opt(Int)] * 6)
+
+
+# (contracts/C12_mainloop.py keeps an assumed call-site stub for this method — "an SGR sequence, no mode change"; the
+# contract verified against the body is this one, registered as an alias so that both coexist.)
+@contract(RD + "Screen._attrspec_to_escape", property=("C04", "C17"), alias="sgr", replayable=False)
+class attrspec_to_escape:
+    self_shape = A2E_SCREEN
+    params = dict(a=SPEC)
+    raises = ()
+    inline = GETTERS
+    binop = staticmethod(sgr_binop)
+    fstring = staticmethod(sgr_fstring)
+    call_real = staticmethod(sgr_call_real)
+    contract_overrides = {DC + "AttrSpec.get_rgb_values": _rgb_callee}
+    static_checks = [_xcheck_decoder]
+
+    def requires(s, a):
+        return wf(word(a.a))  # AttrSpec's representation invariant (established by AttrSpec.__init__, C18)
+
+    def ensures(old, s, a, result):
+        v = word(a.a)
+        fgk = (flag(v, "_FG_BASIC_COLOR"), flag(v, "_FG_HIGH_COLOR"), flag(v, "_FG_TRUE_COLOR"))
+        bgk = (flag(v, "_BG_BASIC_COLOR"), flag(v, "_BG_HIGH_COLOR"), flag(v, "_BG_TRUE_COLOR"))
+        yield "screen-settings-untouched", both(s.fg_bright_is_bold == old.fg_bright_is_bold, s.bg_bright_is_blink == old.bg_bright_is_blink, s.term == old.term)
+        yield "attrspec-untouched", word(a.a) == word(a.old.a)
+        if old.term == "fbterm":
+            # fbterm's private colour selection ESC [ 1 ; n }  (foreground) and ESC [ 2 ; n } (background)
+            parts = fmt_parts(result)
+            ok = parts is not None and len(parts) == 5 and (parts[0], parts[2], parts[4]) == (ESC + "[1;", "}" + ESC + "[2;", "}")
+            yield "fbterm-private-foreground-then-background", both(ok, parts[1] == fg_number(v), parts[3] == bg_number(v)) if ok else False
+            return
+        params = sgr_params(result)
+        yield "one-SGR-control-sequence", params is not None
+        if params is None:
+            return
+        (fg, bg, flags), ok = sgr_decode(params, _fresh_rendition(cur()))
+        yield "every-parameter-is-in-the-SGR-repertoire", ok
+        fg_bold = both(fgk[0], fg_number(v) > 7, old.fg_bright_is_bold)
+        bg_blink = both(bgk[0], bg_number(v) > 7, old.bg_bright_is_blink)
+        yield "foreground-as-specified", colour_as_specified(fg, *fgk, fg_number(v), old.fg_bright_is_bold)
+        yield "background-as-specified", colour_as_specified(bg, *bgk, bg_number(v), old.bg_bright_is_blink)
+        yield "bold-iff-specified-or-needed-for-a-bright-foreground", eq(flags["bold"], either(flag(v, "_BOLD"), fg_bold))
+        yield "blink-iff-specified-or-needed-for-a-bright-background", eq(flags["blink"], either(flag(v, "_BLINK"), bg_blink))
+        for name, const in (("italics", "_ITALICS"), ("underline", "_UNDERLINE"), ("standout", "_STANDOUT"), ("strikethrough", "_STRIKETHROUGH")):
+            yield f"{name}-iff-specified", eq(flags[name], flag(v, const))
+        yield "nothing-else-switched-on", both(neg(flags["faint"]), neg(flags["invisible"]))
